@@ -30,6 +30,9 @@ keygen_from_seed and of try_keygen_with_rng (working and failing generator):
       applied to sum_j A-hat[i][j] o NTT(s1)[j] (unit coefficients modulo q - Montgomery factors
       cancel); Power2Round is applied to that result + s2.  With C18 F (ntt / inv_ntt are the FIPS
       maps), K3/K4, K7, K9 every step of KeyGen_internal is accounted for.
+  K11 RejNTTPoly and RejBoundedPoly leave their loop only with 256 accepted coefficients: in every
+      call (k*l and l+k of them) a counter variable of the function is exactly 256 when its scope
+      ends, on every path to the return (interval invariant j <= 256 + exit condition j >= 256).
 Trusted: the hash implementations and that NTT diagonalises the negacyclic product (mathematics).
 """
 import json
@@ -98,7 +101,7 @@ def main(tier):
     jobs = {}
     for s in sets:
         n = roots.names(s)
-        pr = {"probe": "high_low::power2round"}
+        pr = {"probe": "high_low::power2round|" + st.SAMPLER_PROBES}
         jobs[s] = [("%s:seed" % s, n["keygen_from_seed"], dict(pr)), ("%s:rng" % s, n["try_keygen_with_rng"], dict(pr, rng="ok")),
                    ("%s:rngfail" % s, n["try_keygen_with_rng"], {"rng": "err"})]
     LIN = {"modulus": "8380417", "lin.cap": "600"}
@@ -160,6 +163,7 @@ def main(tier):
             # K3, K4
             st.expand_a(j, P, ob, "key_gen_internal", "keygen:%s" % ent, lambda src: src == rho_dest)
             st.expand_s(j, P, ob, "key_gen_internal", "keygen:%s" % ent, lambda src: src == rhop_dest)
+            st.sampler_fill(j, ob, "keygen:%s" % ent, {"rej_ntt_poly": k * l, "rej_bounded_poly": k + l})
             # K5
             trs = [x for x in st.dedup(st.sites_under(j, "key_gen_internal>h256_xof", "Shake256")) if len(x["items"]) == 1]
             ok5, rd5 = False, None
